@@ -63,7 +63,13 @@ def U(s: str) -> Unit:
     return Unit(d)
 
 
+class LitUnit(Unit):
+    """dimensionless numeric literal: equal to ONE in arithmetic, but yields to the other side at control-flow merges
+    (`x = 1.0` in one branch, `x = <quantity>` in the other: a default, not a contradiction)."""
+
+
 ONE = Unit()
+LIT = LitUnit()
 TOP = "⊤"
 ZERO = "0"
 
@@ -89,7 +95,7 @@ PURE_LIFT = {"array", "asarray", "abs", "float", "list", "tuple", "sorted", "rev
              "transpose", "cumsum", "flat", "astype", "real", "round", "ceil", "floor", "int", "set", "iter", "next", "fromiter", "vstack", "hstack", "concatenate", "nan_to_num", "average", "median"}
 JOIN_ARGS = {"min", "max", "sum", "mean", "maximum", "minimum", "where", "append", "hypot", "fsum", "nansum", "amax", "amin"}
 DIMLESS_FUNCS = {"len", "range", "exp", "log", "log10", "sin", "cos", "tan", "arctan2", "atan2", "isclose", "allclose", "bool", "isinstance", "any", "all", "ones", "ones_like", "arange", "sign", "isnan", "count"}
-ZERO_FUNCS = {"zeros", "zeros_like", "empty"}
+ZERO_FUNCS = {"zeros", "zeros_like", "empty", "defaultdict", "OrderedDict", "Counter"}
 
 
 class Evaluator:
@@ -120,6 +126,10 @@ class Evaluator:
         if a == ZERO:
             return b
         if b == ZERO:
+            return a
+        if isinstance(a, LitUnit) and not isinstance(b, LitUnit):
+            return b
+        if isinstance(b, LitUnit):
             return a
         if a == TOP or b == TOP:
             return TOP
@@ -157,7 +167,7 @@ class Evaluator:
             if isinstance(n.value, bool) or n.value is None or isinstance(n.value, str):
                 return TOP if n.value is None or isinstance(n.value, str) else ONE
             if isinstance(n.value, (int, float)):
-                return ZERO if n.value == 0 else ONE
+                return ZERO if n.value == 0 else LIT
             return TOP
         if isinstance(n, ast.Name):
             return self.env.get(n.id, self.law.consts.get(n.id, TOP))
@@ -293,6 +303,8 @@ class Evaluator:
         kwv = {k.arg: self.e(k.value) for k in n.keywords}
         if name in self.sink_names:
             self.sinks.append((n, argv, kwv))
+        if name in ("dict", "list", "set", "tuple") and not n.args and not n.keywords:
+            return ZERO  # empty container
         if name in self.law.methods:
             return self.law.methods[name]
         d = dotted(f)
@@ -330,6 +342,8 @@ class Evaluator:
         if name == "keys":
             return TOP
         if name == "zip":
+            if len(n.args) == 1 and isinstance(n.args[0], ast.Starred) and isinstance(argv[0], tuple):
+                return argv[0]  # zip(*pairs): per-position units
             return tuple(self.flat(a) for a in argv)
         if name == "enumerate":
             return (ONE, argv[0] if argv else TOP)
@@ -359,7 +373,10 @@ class Evaluator:
                 for x in t.elts:
                     self.bind(x, self.flat(v))
         elif isinstance(t, ast.Subscript):
-            d = dotted(t.value)
+            base = t.value
+            while isinstance(base, ast.Subscript):
+                base = base.value
+            d = dotted(base)
             if d is not None:
                 self.env[d] = self.merge(self.env.get(d, ZERO), v)
         elif isinstance(t, ast.Attribute):
@@ -391,7 +408,10 @@ class Evaluator:
             if st.value is not None:
                 self.bind(st.target, self.e(st.value))
         elif isinstance(st, ast.AugAssign):
-            d = dotted(st.target) if not isinstance(st.target, ast.Subscript) else dotted(st.target.value)
+            tb = st.target
+            while isinstance(tb, ast.Subscript):
+                tb = tb.value
+            d = dotted(tb)
             cur = self.e(st.target)
             v = self.e(st.value)
             if isinstance(st.op, (ast.Add, ast.Sub)):
